@@ -23,6 +23,7 @@ import (
 	"net/http"
 	"net/http/httptest"
 	"net/url"
+	"strconv"
 	"strings"
 	"sync"
 	"sync/atomic"
@@ -50,8 +51,9 @@ import (
 const gkey = "{}:{alertname=\"Down\"}"
 
 type scenario struct {
-	Mode string `json:"mode"` // slow | mailquit
-	Kind string `json:"kind"` // slack | webhook | email
+	Mode string `json:"mode"`           // slow | mailquit | non2xx
+	Kind string `json:"kind"`           // slack | webhook | email | ...
+	Code int    `json:"code,omitempty"` // non2xx: the status the endpoint answers with
 }
 
 type httpSink struct {
@@ -67,6 +69,14 @@ func newHTTPSink() *httpSink {
 		s.mu.Lock()
 		s.hits[r.URL.Path]++
 		s.mu.Unlock()
+		if i := strings.Index(r.URL.Path, "/code-"); i >= 0 { // answer with the status named in the path
+			code, _ := strconv.Atoi(r.URL.Path[i+6 : i+9])
+			if code/100 == 3 {
+				w.Header().Set("Location", "/elsewhere")
+			}
+			w.WriteHeader(code)
+			return
+		}
 		w.WriteHeader(http.StatusOK)
 		if f, ok := w.(http.Flusher); ok { // headers now, body later
 			f.Flush()
@@ -171,7 +181,7 @@ func Judge(t *testing.T, env vh.Env, run *vh.Run, prop string) {
 	defer hs.srv.Close()
 	ms := newSMTPSink()
 	defer ms.ln.Close()
-	scs := []scenario{{"slow", "slack"}, {"slow", "webhook"}, {"mailquit", "email"}}
+	scs := []scenario{{Mode: "slow", Kind: "slack"}, {Mode: "slow", Kind: "webhook"}, {Mode: "mailquit", Kind: "email"}}
 	rounds := env.N(2, 2)
 	seq := 0
 	for round := 0; round < rounds; round++ {
@@ -250,6 +260,75 @@ func Judge(t *testing.T, env vh.Env, run *vh.Run, prop string) {
 				case flush == 2 && n != 0:
 					run.Violate("unchanged-group-notified-again", fmt.Sprintf("%s: nothing changed since the delivered notification of flush 1, yet flush 2 delivered %d more", sc.Kind, n), sc)
 				}
+			}
+		}
+	}
+	judgeNon2xx(t, env, run, prop, tmpl, hs)
+}
+
+// non2xx: kinds that deliver with one POST and classify the answer with notify.Retrier; %s = endpoint URL.
+// Redirects are not followed, so a 3xx is the final answer of the endpoint.
+var non2xxKinds = map[string]string{
+	"webhook":    "{url: '%s', http_config: {follow_redirects: false}}",
+	"slack":      "{channel: '#alerts', api_url: '%s', http_config: {follow_redirects: false}}",
+	"msteams":    "{webhook_url: '%s', http_config: {follow_redirects: false}}",
+	"msteamsv2":  "{webhook_url: '%s', http_config: {follow_redirects: false}}",
+	"discord":    "{webhook_url: '%s', http_config: {follow_redirects: false}}",
+	"mattermost": "{channel: c, webhook_url: '%s', http_config: {follow_redirects: false}}",
+}
+
+var non2xxCodes = []int{300, 301, 302, 303, 304, 307, 308}
+
+// judgeNon2xx: an answer outside 2xx is NOT a delivery. The notifier must return an error (retry or not); through
+// the receiver pipeline the flush must fail and nothing may be written to the notification log (otherwise every
+// later flush of the group is dropped as a duplicate although the receiver never got the alert).
+func judgeNon2xx(t *testing.T, env vh.Env, run *vh.Run, prop string, tmpl *template.Template, hs *httpSink) {
+	seq := 0
+	for _, kind := range vh.SortedKeys(non2xxKinds) {
+		for _, code := range non2xxCodes {
+			seq++
+			sc := scenario{Mode: "non2xx", Kind: kind, Code: code}
+			path := fmt.Sprintf("/x%d/code-%d/%s", seq, code, kind)
+			cfg, err := config.Load(fmt.Sprintf("route: {receiver: team}\nreceivers:\n- name: team\n  %s_configs:\n  - %s\n", kind, fmt.Sprintf(non2xxKinds[kind], hs.srv.URL+path)))
+			if err != nil {
+				t.Fatalf("notifres: config.Load: %v", err)
+			}
+			integs, err := receiver.BuildReceiverIntegrations(cfg.Receivers[0], tmpl, promslog.NewNopLogger(), commoncfg.WithKeepAlivesDisabled())
+			if err != nil || len(integs) != 1 {
+				t.Fatalf("notifres: BuildReceiverIntegrations: %v (%d)", err, len(integs))
+			}
+			run.Count("notifier_results("+prop+")", fmt.Sprintf("non2xx/%s", kind))
+			now := time.Now()
+			ctx, cancel := flushCtx(10 * time.Second)
+			retry, nerr := integs[0].Notify(ctx, alerts(now)...)
+			cancel()
+			if hs.count(path) < 1 {
+				run.Violate("notification-not-attempted", fmt.Sprintf("%s: no request reached the endpoint (err=%v)", kind, nerr), sc)
+				continue
+			}
+			if nerr == nil {
+				run.Violate("undelivered-notification-reported-as-delivered", fmt.Sprintf("%s: the endpoint answered %d (redirects are not followed) and Notify returned success: the notification is recorded as sent and the group stays silent until repeat_interval although the receiver never got it", kind, code), sc)
+			}
+			if retry {
+				continue // a retryable verdict would keep the pipeline busy until its deadline; the verdict itself is judged above
+			}
+			log, err := nflog.New(nflog.Options{Retention: 2 * time.Hour, Metrics: prometheus.NewRegistry()})
+			if err != nil {
+				t.Fatal(err)
+			}
+			recv := &nflogpb.Receiver{GroupName: "team", Integration: integs[0].Name(), Idx: uint32(integs[0].Index())}
+			stage := notify.FanoutStage{notify.MultiStage{
+				notify.NewClusterWaitStage(func() time.Duration { return 0 }),
+				notify.NewDedupStage(&integs[0], log, recv),
+				notify.NewRetryStage(integs[0], "team", notify.NewMetrics(prometheus.NewRegistry(), featurecontrol.NoopFlags{}), eventrecorder.NopRecorder()),
+				notify.NewSetNotifiesStage(log, recv),
+			}}
+			ctx, cancel = flushCtx(3 * time.Second)
+			_, _, ferr := stage.Exec(ctx, promslog.NewNopLogger(), alerts(now)...)
+			cancel()
+			es, _ := log.Query(nflog.QGroupKey(gkey), nflog.QReceiver(recv))
+			if ferr == nil || len(es) != 0 {
+				run.Violate("undelivered-notification-recorded", fmt.Sprintf("%s: the endpoint answered %d; flush error=%v, notification-log entries=%d (a failed delivery must not discharge the obligation)", kind, code, ferr, len(es)), sc)
 			}
 		}
 	}
